@@ -16,11 +16,16 @@ func init() { core.Register(P{}) }
 func (P) ID() string { return "C08" }
 func (P) Rule() string {
 	return "case = one two-way session of 1..6 interleaved streams (request/response messages with HEADERS, 0..3 DATA padded or not, " +
-		"trailers, RST_STREAM, PRIORITY, server PUSH_PROMISE) fed frame by frame into the two real relays through the verif hook, header " +
-		"blocks cut into 1..4 HEADERS/CONTINUATION fragments, interleaved with SETTINGS (INITIAL_WINDOW_SIZE 0/1/10/65535/2^31-1, " +
-		"MAX_FRAME_SIZE), WINDOW_UPDATE, PING, GOAWAY from either endpoint; three quarters use literal header blocks and are compared " +
-		"line by line with the Lean model, one quarter uses a real hpack.Encoder (oracle only); distinct by hash of the op list; " +
-		"non-trivial when the case has a CONTINUATION, at least two streams and at least one frame that waited in an output queue"
+		"trailers, RST_STREAM, PRIORITY, server PUSH_PROMISE; one case in six with a response body above 65535 octets whose receiver granted " +
+		"the stream window before the first response frame) fed frame by frame into the two real relays through the verif hook, header " +
+		"blocks cut into 1..4 HEADERS/CONTINUATION fragments, interleaved with SETTINGS as LISTS (an identifier up to three times, unknown " +
+		"identifiers, any order; INITIAL_WINDOW_SIZE 0/1/10/65535/2^31-1, MAX_FRAME_SIZE, HEADER_TABLE_SIZE 0..65536), SETTINGS " +
+		"acknowledgements that lag behind (an endpoint's encoder applies a table size only when it acknowledges), WINDOW_UPDATE, PING, GOAWAY " +
+		"from either endpoint; header blocks are literal (half of the cases), or lists of HPACK representations emitted by a hand-driven " +
+		"encoder with its own dynamic table - indexed fields, incremental indexing, size updates (a quarter), both compared line by line " +
+		"with the Lean model, or encoded by a real hpack.Encoder when the op runs (a quarter, oracle only); plus histories of a bare " +
+		"hpack.Decoder/Encoder against the Lean table model (hp.* ops); distinct by hash of the op list; non-trivial when the case has a " +
+		"CONTINUATION, at least two streams and at least one frame that waited in an output queue"
 }
 
 var queued = regexp.MustCompile(`:-?\d+:[dhupr]\d`)
@@ -33,7 +38,10 @@ func (P) Nontrivial(ops []string, impl []string) bool {
 		if f[0] == "cont" {
 			cont = true
 		}
-		if (f[0] == "headers" || f[0] == "data") && len(f) > 2 {
+		if f[0] == "rcont" {
+			cont = true
+		}
+		if (f[0] == "headers" || f[0] == "data" || f[0] == "hb" || f[0] == "rhdr") && len(f) > 2 {
 			sids[f[2]] = true
 		}
 	}
